@@ -59,3 +59,17 @@ Theorem C05_source_write_sites_fixed2d_and_1d :
     (Forall (site_ok F0 S0 F1 S1 N i j) (gen_fixedview2d_write_sites F0 S0 F1 S1 N i j) /\ 40 <= length (gen_fixedview2d_write_sites F0 S0 F1 S1 N i j)) /\
     (Forall (site1d_ok f s i j) (gen_view1d_write_sites f s i j) /\ 30 <= length (gen_view1d_write_sites f s i j)).
 Proof. intros. exact (conj (gen_fixedview2d_write_sites_ok F0 S0 F1 S1 N i j) (gen_view1d_write_sites_ok f s i j)). Qed.
+Print Assumptions C05_source_write_sites_fixed2d_and_1d.
+
+(** the overloads selected for a right-hand side that must be evaluated first (trans(), %, inverse ...), as translated
+    from expressions/views/*.h (file, operator of the overload, operator applied to the evaluated temporary): each
+    evaluates its own argument and forwards the temporary to the same operator, and every operator has one per class *)
+From Coq Require Import Arith.
+Import ListNotations.
+Theorem C05_source_evaluated_rhs_forwards :
+  forallb (fun b => let '(f, op, called) := b in (op =? called)) gen_evalrhs_forwards = true /\
+  60 <= length gen_evalrhs_forwards /\
+  forall o, In o [0; 1; 2; 3; 4] ->
+    5 * length (filter (fun b => let '(f, op, called) := b in op =? o) gen_evalrhs_forwards) = length gen_evalrhs_forwards.
+Proof. exact gen_evalrhs_forwards_ok. Qed.
+Print Assumptions C05_source_evaluated_rhs_forwards.
